@@ -512,7 +512,7 @@ impl Property for C13P {
         "JSON values from a proptest prop_recursive generator (objects with distinct hostile string keys, arrays, strings over all \
          escapes / indicators / raw non-ASCII / control characters, numbers incl. i64 boundaries, > i64, fractions, exponents, -0; depth \
          <= 8, plus nesting chains to depth 200) serialised by a choice-stream-driven writer: compact, pretty (2 / 4 / tab), or random \
-         runs of space, tab, LF, CRLF around every token; per-character choice of escape vs literal. Oracle: Yaml::load_from_str and Yaml::load_from_parser(Parser::new_from_str) give \
+         runs of space, tab, LF, CRLF around every token; per-character choice of escape vs literal. Oracle: Yaml::load_from_str, Yaml::load_from_parser(Parser::new_from_str) and the deferred loading mode (early_parse(false) + parse_representation_recursive) give \
          one document equal to the generating value (objects -> mappings with string keys in order, numbers -> Integer / FloatingPoint of \
          exactly the same value). Non-trivial = (depth >= 2 or a string with a non-alphanumeric char or a non-integer number) and a \
          non-compact layout; distinct by serialised text."
